@@ -13,15 +13,22 @@ func init() {
 			} else {
 				cs = append(cs, mkCase("", "c15", "HSeq", cfg, 1, 2), mkCase("", "c15", "HSeq", cfg, 2, 1), mkCase("", "c15", "HSeq", cfg, 2, 2))
 			}
+			ccfg := cfg
+			ccfg.Preempt = 3
+			for a := int64(0); a < 11; a++ {
+				for b := a; b < 11; b++ {
+					cs = append(cs, mkCase("", "c15", "HConc", ccfg, a, b))
+				}
+			}
 			return []group{{Tags: "", Pkgs: []string{"c15"}, Cases: cs}}
 		},
-		Reach:       []string{"start", "end"},
-		Explanation: "Bounded symbolic execution of all of idm/memidm in lock-step with a two-list reference model written in the harness: a history of L calls chosen among AddGroup, AddUser, DelGroup, DelUser, LookupGroup, LookupGroupId, LookupUser, LookupUserId; names are drawn from a pool (the administrator's name, a, b) or are fully symbolic strings (all 256 byte values per byte), ids are symbolic 64-bit integers; after every step results, documented error types and payloads, by-name/by-id agreement for every entry ever created, id monotonicity (a deleted id is never found again) and IsAdmin <=> the administrator are asserted.",
+		Reach:       []string{"start", "end", "concurrent", "joined"},
+		Explanation: "Bounded symbolic execution of all of idm/memidm in lock-step with a two-list reference model written in the harness: a history of L calls chosen among AddGroup, AddUser, DelGroup, DelUser, LookupGroup, LookupGroupId, LookupUser, LookupUserId; names are drawn from a pool (the administrator's name, a, b) or are fully symbolic strings (all 256 byte values per byte), ids are symbolic 64-bit integers; after every step results, documented error types and payloads, by-name/by-id agreement for every entry ever created, id monotonicity (a deleted id is never found again) and IsAdmin <=> the administrator are asserted. Concurrent half: every unordered pair of 11 calls (over a small pool of names) is run by two interpreted goroutines on one shared MemIdm under every interleaving at lock granularity (pre-emption bound 3); results and final by-name/by-id state must equal those of a sequential order (bounded exhaustive schedule exploration; decided in the interpreter only).",
 		Bounds: func(tier string) map[string]any {
 			if tier == "thorough" {
-				return map[string]any{"history_length_x_symbolic_name_length": "L=1,n=3; L=2,n=2; L=3,n<=2", "outside": "longer histories; concurrent histories (C06-style scheduler harness)"}
+				return map[string]any{"history_length_x_symbolic_name_length": "L=1,n=3; L=2,n=2; L=3,n<=2", "concurrent": "2 goroutines x 1 call, 66 pairs, pre-emption bound 3", "outside": "longer histories; more goroutines"}
 			}
-			return map[string]any{"history_length_x_symbolic_name_length": "L=1,n=2; L=2,n<=2", "outside": "longer histories; concurrent histories"}
+			return map[string]any{"history_length_x_symbolic_name_length": "L=1,n=2; L=2,n<=2", "concurrent": "2 goroutines x 1 call, 66 pairs, pre-emption bound 3", "outside": "longer histories; more goroutines"}
 		},
 		Trusted: []string{"the harness reference model (two lists with monotone counters)"},
 	})
